@@ -30,7 +30,16 @@ def _worker(args):
         if case is None:
             rng = fw.rng_for(seed, engname, pid, idx)
             case = eng.gen_case(rng, pid, tier)
-        run = eng.run_impl(case, pid)
+        # (code under test that ends its process - utils.sys_exit -> os._exit - must not take the pool worker with
+        # it: the pool would wait for the lost result forever)
+        def _no_exit(code=0):
+            raise RuntimeError('the code under test ended its process (os._exit(%r))' % (code,))
+        real_exit = os._exit            # pylint: disable=protected-access
+        os._exit = _no_exit             # pylint: disable=protected-access
+        try:
+            run = eng.run_impl(case, pid)
+        finally:
+            os._exit = real_exit        # pylint: disable=protected-access
         return {'idx': idx, 'case': case, 'lines': run.lines, 'obs': run.obs,
                 'hits': [dict(h) for h in run.hits], 'tags': sorted(run.tags),
                 'nontrivial': bool(run.nontrivial), 'skipped': run.skipped, 'error': None}
